@@ -53,7 +53,7 @@ def shards(tier):
 
 def required_counters(tier):
     return {
-        "modules.validated": 800,
+        "modules.transformed_with_warnings_as_errors": 100, "modules.validated": 800,
         "decorators.function": 5000,
         "decorators.class": 500,
         "async_defs_untouched": 20,
@@ -179,15 +179,21 @@ def is_hook_decorator(node, hash_):
         return False
 
 
+WARNINGS_AS_ERRORS = [False]
+
+
 def validate(rec, source, path, tc_string, label):
     """-> True if validated. Precondition (checked): the original compiles."""
     from jaxtyping import _import_hook as H
 
     # `source` may be bytes (corpus files: the loader decodes them itself, honouring coding cookies) or str
     try:
-        orig_tree = compile(source, path, "exec", ast.PyCF_ONLY_AST, dont_inherit=True)
-        orig_code = compile(orig_tree, path, "exec", dont_inherit=True)
-    except (SyntaxError, ValueError, RecursionError, MemoryError, OverflowError):
+        with warnings.catch_warnings():
+            if WARNINGS_AS_ERRORS[0]:
+                warnings.simplefilter("error")  # (a SyntaxWarning of the module itself then fails the precondition)
+            orig_tree = compile(source, path, "exec", ast.PyCF_ONLY_AST, dont_inherit=True)
+            orig_code = compile(orig_tree, path, "exec", dont_inherit=True)
+    except (SyntaxError, ValueError, RecursionError, MemoryError, OverflowError, Warning):
         rec.count("corpus.original_does_not_compile")
         return None
     orig_dump = safe_dump(orig_tree)
@@ -201,7 +207,13 @@ def validate(rec, source, path, tc_string, label):
             # tree dumps; a user's import does not)
             sys.setrecursionlimit(1000 + len(inspect.stack(0)))
             try:
-                new_code = loader.source_to_code(source.encode("utf-8") if isinstance(source, str) else source, path)
+                with warnings.catch_warnings():
+                    if WARNINGS_AS_ERRORS[0]:
+                        # the program runs with warnings turned into errors (python -W error, pytest's
+                        # filterwarnings = error): the original compiled under that regime, so must the result
+                        warnings.simplefilter("error")
+                        rec.count("modules.transformed_with_warnings_as_errors")
+                    new_code = loader.source_to_code(source.encode("utf-8") if isinstance(source, str) else source, path)
             finally:
                 sys.setrecursionlimit(harness_limit)
         except BaseException as e:  # noqa
@@ -516,6 +528,7 @@ def dynamic(rec, rng, scratch, idx):
 
 def run_shard(rec, seed, shard, tier):
     warnings.filterwarnings("ignore")
+    WARNINGS_AS_ERRORS[0] = shard["i"] % 4 == 3
     sys.setrecursionlimit(30000)
     files = corpus_files()
     rec.info["corpus_size"] = len(files) if shard["i"] == 0 else 0
